@@ -272,4 +272,29 @@ def conservedB (gt : Graph × Trace) : Bool :=
   (symbolsOf gt.1 ++ List.replicate gt.2.replaced "#").isPerm gt.2.symbols &&
   (bondLabelsOf gt.1 ++ gt.2.dropped).isPerm gt.2.bonds
 
+/-! ### conservation at the `iter(Proxy)` level: the side condition and the traced enumeration -/
+
+/-- no parallel bonds: every adjacency entry carries at most one key, so `nx.Graph(multigraph)`
+    has nothing to collapse -/
+def noParallel (g : Graph) : Bool := g.adj.all fun r => r.2.all fun e => decide (e.2.length ≤ 1)
+
+/-- side condition of bond conservation at the `iter(Proxy)` level for a `build_graphs` result: a simple
+    graph is returned as it is; a multigraph must not carry parallel bonds -/
+def sideOk (g : Graph) : Bool := !g.multi || noParallel g
+
+/-- `Proxy.__generate`, traced: every sample comes with the `build_graphs` result it was finished from
+    and the trace of the patterns chosen along its combination -/
+def generateT (cfg : Config) (fuel : Nat) (enableAam : Bool) : List Graph → Except Err (List (Graph × Graph × Trace))
+  | [] => .ok []
+  | core :: rest => do
+      let ts ← buildGraphsT cfg fuel core
+      let more ← generateT cfg fuel enableAam rest
+      pure (ts.map (fun gt => (gt.1, finish enableAam gt.1, gt.2)) ++ more)
+
+/-- conservation for one sample of `iter(Proxy)`: symbols always; bond labels when the side condition
+    holds for the `build_graphs` result the sample was finished from -/
+def conservedIterB (r : Graph × Graph × Trace) : Bool :=
+  (symbolsOf r.2.1 ++ List.replicate r.2.2.replaced "#").isPerm r.2.2.symbols &&
+  (!sideOk r.1 || (bondLabelsOf r.2.1 ++ r.2.2.dropped).isPerm r.2.2.bonds)
+
 end C14
